@@ -378,6 +378,10 @@ func (p *path) addRule(
 		if m.body == nil {
 			return fmt.Errorf("body field error %v", rule.Body)
 		}
+		// The request is walked with Mutable(fd).Message(): only a message field can be selected.
+		if fd := m.body[len(m.body)-1]; fd.Message() == nil || fd.IsList() || fd.IsMap() {
+			return fmt.Errorf("body field is not a message %v", rule.Body)
+		}
 		m.hasBody = true
 	}
 
